@@ -252,6 +252,62 @@ def run(ctx):
             ctx.spec("schedule: none reported", inp, ok, key="schedule-none")
         ctx.count("schedule:" + ("none" if impl == "none" else "found" + (":split" if impl["nSplits"] > 1 else "")))
     ctx.sample({"schedule_request": inp, "impl": impl})
+    # ---- schedules at the memory boundary: the limit is put exactly on the estimate of a split whose tiles do not divide
+    # the axis (tile extent ceil(N/k) > N/k), so an estimate made for narrower tiles than the real ones would accept it
+    nb = ctx.budget(25, 200)
+    tried = 0
+    for it in range(nb * 6):
+        if tried >= nb:
+            break
+        nd = int(rng.integers(2, 4))
+        shape1 = tuple(int(x) for x in rng.integers(20, 70 if nd == 3 else 200, size=nd))
+        shape2 = tuple(int(x) for x in rng.integers(2, 14, size=nd))
+        pad = tuple(int(x) for x in (shape2 if rng.random() < 0.5 else np.zeros(nd)))
+        method = str(rng.choice(methods))
+        analyzer = analyzers[int(rng.integers(0, len(analyzers)))]
+        axis = int(rng.integers(0, nd))
+        N = shape1[axis]
+
+        def est(width, ncores=1):
+            w = list(shape1)
+            w[axis] = width
+            return estimate_ram_usage(shape1=np.add(w, pad), shape2=shape2, matching_method=method, ncores=ncores,
+                                      analyzer_method=analyzer)
+        cands = [k for k in range(2, min(N, 14)) if N % k and est(N // k) < est(-(-N // k))]
+        if not cands:
+            continue
+        k = int(cands[int(rng.integers(len(cands)))])
+        max_ram = int(est(-(-N // k)))
+        kw = dict(shape1=shape1, shape2=shape2, max_cores=1, max_ram=max_ram, matching_method=method, split_axes=(axis,),
+                  split_only_outer=False, shape1_padding=np.array(pad), analyzer_method=analyzer, max_splits=32)
+        with contextlib.redirect_stdout(io.StringIO()):
+            res = compute_parallelization_schedule(**kw)
+        tried += 1
+        inp = {kk: (v.tolist() if isinstance(v, np.ndarray) else v) for kk, v in kw.items()}
+        inp["boundary"] = {"axis": axis, "k": k, "tile": -(-N // k)}
+        margs = dict(shape1=list(shape1), shape2=list(shape2), padding=list(pad), maxCores=1, maxRam=max_ram, method=method,
+                     onlyOuter=False, maxSplits=32, fb=4, cb=8, splitAxes=[axis])
+        if analyzer:
+            margs["analyzer"] = analyzer
+        mm = d.call("c14.schedule", **margs)
+        if res[0] is None:
+            ctx.agree("compute_parallelization_schedule", inp, "none", mm)
+            ctx.count("schedule-boundary:none")
+            continue
+        splits, (outer, inner) = res
+        sp = {i: int(splits[i]) for i in range(nd)}
+        ctx.agree("compute_parallelization_schedule", inp, {"splits": [sp[i] for i in range(nd)], "outer": int(outer), "inner": int(inner),
+                                                            "nSplits": int(np.prod(list(sp.values())))}, mm)
+        tiles = split_shape(shape1, sp)
+        widths = [tuple(s_.stop - s_.start for s_ in t) for t in tiles]
+        us = [estimate_ram_usage(shape1=np.add(w, pad), shape2=shape2, matching_method=method, ncores=int(inner),
+                                 analyzer_method=analyzer) for w in widths]
+        peak = max(sum(us[i:i + int(outer)]) for i in range(0, len(us), int(outer)))
+        ok = int(outer) * int(inner) <= 1 and peak < max_ram
+        ctx.spec("schedule: cores, concurrent tiles, own memory estimate", inp, ok,
+                 {"splits": sp, "outer": int(outer), "inner": int(inner), "peak": int(peak), "max_ram": max_ram}, key="schedule")
+        ctx.distinct(("sched-boundary", shape1, shape2, pad, max_ram, method, analyzer, axis))
+        ctx.count("schedule-boundary:" + ("same-k" if sp[axis] == k else "other-k"))
     # estimate_ram_usage itself vs the model (unknown score -> ValueError)
     for it in range(ctx.budget(80, 600)):
         nd = int(rng.integers(1, 4))
